@@ -1,37 +1,37 @@
-import Proofs.F32Ops
+import Proofs.F64Ops
 /-! Bounded-operand forms of the standard-model lemmas: absolute error bounds from magnitude bounds, ready for chaining. -/
-namespace F32
+namespace F64
 open Real
 
 theorem u_pos : 0 < u := by unfold u; positivity
 theorem eta_pos : 0 < eta := by unfold eta; positivity
-theorem u_val : u = 1 / 16777216 := by unfold u; norm_num
+theorem u_val : u = 1 / 9007199254740992 := by unfold u; norm_num
 theorem eta_le : eta ≤ 1 / 10 ^ 40 := by
   unfold eta
-  have h1 : (2:ℝ)^(-150:ℤ) ≤ (2:ℝ)^(-133:ℤ) := zpow_le_zpow_right₀ (by norm_num) (by norm_num)
+  have h1 : (2:ℝ)^(-1075:ℤ) ≤ (2:ℝ)^(-133:ℤ) := zpow_le_zpow_right₀ (by norm_num) (by norm_num)
   have h2 : (2:ℝ)^(-133:ℤ) = 1 / (2:ℝ)^(133:ℕ) := by rw [zpow_neg, one_div]; norm_num
   have h3 : (10:ℝ)^40 ≤ (2:ℝ)^(133:ℕ) := by norm_num
   have h4 : 1 / (2:ℝ)^(133:ℕ) ≤ 1 / (10:ℝ)^40 := one_div_le_one_div_of_le (by positivity) h3
   exact le_trans h1 (h2 ▸ h4)
 
-theorem big_pow : (100000:ℝ) < (2:ℝ)^(127:ℤ) := by
-  have h1 : (2:ℝ)^(17:ℤ) ≤ (2:ℝ)^(127:ℤ) := zpow_le_zpow_right₀ (by norm_num) (by norm_num)
+theorem big_pow : (100000:ℝ) < (2:ℝ)^(1023:ℤ) := by
+  have h1 : (2:ℝ)^(17:ℤ) ≤ (2:ℝ)^(1023:ℤ) := zpow_le_zpow_right₀ (by norm_num) (by norm_num)
   have h2 : (100000:ℝ) < (2:ℝ)^(17:ℤ) := by norm_num
   exact lt_of_lt_of_le h2 h1
 
-theorem fit_small (x : ℝ) (h : x ≤ 100000) : x < (2:ℝ)^(127:ℤ) := lt_of_le_of_lt h big_pow
+theorem fit_small (x : ℝ) (h : x ≤ 100000) : x < (2:ℝ)^(1023:ℤ) := lt_of_le_of_lt h big_pow
 
 /-- a finite float with a magnitude bound -/
 def Bnd (a : Nat) (A : ℝ) : Prop := Finite a ∧ |toReal a| ≤ A
 
-theorem mul_bnd (a b : Nat) (A B : ℝ) (ha : Bnd a A) (hb : Bnd b B) (hAB : A * B < (2:ℝ)^(127:ℤ)) :
+theorem mul_bnd (a b : Nat) (A B : ℝ) (ha : Bnd a A) (hb : Bnd b B) (hAB : A * B < (2:ℝ)^(1023:ℤ)) :
     Bnd (mul a b) (A * B * (1 + u) + eta) ∧ |toReal (mul a b) - toReal a * toReal b| ≤ u * (A * B) + eta := by
   obtain ⟨⟨n1, m1, e1, h1⟩, hA⟩ := ha
   obtain ⟨⟨n2, m2, e2, h2⟩, hB⟩ := hb
   have hA0 : 0 ≤ A := le_trans (abs_nonneg _) hA
   have hB0 : 0 ≤ B := le_trans (abs_nonneg _) hB
   have hprod : |toReal a * toReal b| ≤ A * B := by rw [abs_mul]; exact mul_le_mul hA hB (abs_nonneg _) hA0
-  have hfit : m1 * m2 ≠ 0 → (e1 + e2) + ((Nat.log2 (m1*m2) + 1 : Nat) : Int) ≤ 127 := by
+  have hfit : m1 * m2 ≠ 0 → (e1 + e2) + ((Nat.log2 (m1*m2) + 1 : Nat) : Int) ≤ 1023 := by
     intro hz
     apply fit_of_lt _ _ hz
     have : ((m1 * m2 : ℕ) : ℝ) * (2:ℝ)^(e1 + e2) = |toReal a * toReal b| := by
@@ -41,15 +41,15 @@ theorem mul_bnd (a b : Nat) (A B : ℝ) (ha : Bnd a A) (hb : Bnd b B) (hAB : A *
   obtain ⟨hf, hv⟩ := mul_val a b n1 n2 m1 m2 e1 e2 h1 h2 hfit
   have hv' : |toReal (mul a b) - toReal a * toReal b| ≤ u * (A * B) + eta := by
     have := mul_le_mul_of_nonneg_left hprod u_pos.le
-    have h150 : (2:ℝ)^(-150:ℤ) = eta := rfl
-    have h24 : (2:ℝ)^(-24:ℤ) = u := rfl
-    rw [h150, h24] at hv
+    have h1075 : (2:ℝ)^(-1075:ℤ) = eta := rfl
+    have h53 : (2:ℝ)^(-53:ℤ) = u := rfl
+    rw [h1075, h53] at hv
     linarith
   refine ⟨⟨hf, ?_⟩, hv'⟩
   have := abs_sub_abs_le_abs_sub (toReal (mul a b)) (toReal a * toReal b)
   nlinarith [u_pos]
 
-theorem add_bnd (a b : Nat) (A B : ℝ) (ha : Bnd a A) (hb : Bnd b B) (hAB : A + B < (2:ℝ)^(127:ℤ)) :
+theorem add_bnd (a b : Nat) (A B : ℝ) (ha : Bnd a A) (hb : Bnd b B) (hAB : A + B < (2:ℝ)^(1023:ℤ)) :
     Bnd (add a b) ((A + B) * (1 + u) + eta) ∧ |toReal (add a b) - (toReal a + toReal b)| ≤ u * (A + B) + eta := by
   obtain ⟨fa, hA⟩ := ha
   obtain ⟨fb, hB⟩ := hb
@@ -63,7 +63,7 @@ theorem add_bnd (a b : Nat) (A B : ℝ) (ha : Bnd a A) (hb : Bnd b B) (hAB : A +
   have := abs_sub_abs_le_abs_sub (toReal (add a b)) (toReal a + toReal b)
   nlinarith [u_pos]
 
-theorem fma_bnd (a b c : Nat) (A B Cc : ℝ) (ha : Bnd a A) (hb : Bnd b B) (hc : Bnd c Cc) (hfit : A * B + Cc < (2:ℝ)^(127:ℤ)) :
+theorem fma_bnd (a b c : Nat) (A B Cc : ℝ) (ha : Bnd a A) (hb : Bnd b B) (hc : Bnd c Cc) (hfit : A * B + Cc < (2:ℝ)^(1023:ℤ)) :
     Bnd (fma a b c) ((A * B + Cc) * (1 + u) + eta) ∧ |toReal (fma a b c) - (toReal a * toReal b + toReal c)| ≤ u * (A * B + Cc) + eta := by
   obtain ⟨fa, hA⟩ := ha
   obtain ⟨fb, hB⟩ := hb
@@ -80,9 +80,9 @@ theorem fma_bnd (a b c : Nat) (A B Cc : ℝ) (ha : Bnd a A) (hb : Bnd b B) (hc :
   have := abs_sub_abs_le_abs_sub (toReal (fma a b c)) (toReal a * toReal b + toReal c)
   nlinarith [u_pos]
 
-end F32
+end F64
 
-namespace F32
+namespace F64
 open Real
 
 /-- bound expressions of the unfused 3-term dot product `a*x + (b*y + c*z)` -/
@@ -148,4 +148,6 @@ theorem dot3_fma (a x b y c z : Nat) (A X B Y C Z : ℝ) (ha : Bnd a A) (hx : Bn
   rw [abs_le] at e1 e2 e3 ⊢
   constructor <;> nlinarith [e1.1, e1.2, e2.1, e2.2, e3.1, e3.2, abs_nonneg (toReal b), abs_nonneg (toReal y), hb.2, hy.2]
 
-end F32
+end F64
+
+/-! GENERATED from Proofs/F32Approx.lean by run/gen64proofs.py (binary64 instance of the same proof). -/
